@@ -493,6 +493,14 @@ class FuncScope(Scope, Location, Resolvable):
     def get_argument(self, ctx, arg):
         # type: (EvalCtx, ArgumentName) -> Object | None
         if arg.idx == [0] and isinstance(self.parent, ClassScope):
+            for d in self.decorator_list:
+                v = ctx.evaluate(d)
+                if isinstance(v, RuntimeName) and v.is_builtin:
+                    if v.name == 'classmethod':
+                        # cls: the class itself, not an instance of it
+                        return self.parent.resolve(ctx)
+                    if v.name == 'staticmethod':
+                        return None
             return self.parent.resolve(ctx).call(ctx)
         return None
 
